@@ -1,6 +1,7 @@
 package rules
 
 import (
+	"os"
 	"fmt"
 	"go/types"
 	"sort"
@@ -26,6 +27,50 @@ func c11(c *Ctx) {
 	c11containers(c)
 	c11wrappers(c)
 	c11ticker(c)
+	if os.Getenv("GZV_LOCK_SCAN") != "" {
+		for _, pk := range c.P.Pkgs {
+			for _, f := range c.P.AllFuncs(strings.TrimPrefix(pk.PkgPath, mod)) {
+				if f.Parent() != nil || len(f.Blocks) > 60 {
+					continue
+				}
+				hasLock := callsInBody(f, func(cc *ssa.CallCommon) bool { n := calleeName(cc); return strings.HasSuffix(n, "Mutex).Lock") || strings.HasSuffix(n, "Mutex).RLock") })
+				if !hasLock {
+					continue
+				}
+				func() {
+					defer func() { recover() }()
+					ps, _, err := px.Run(px.Config{Prog: c.P.SSA, MaxVisits: 2, MayPanic: userPanics, MaxPaths: 20000}, f)
+					if err != nil {
+						return
+					}
+					for _, p := range ps {
+						if p.Exit != px.ExitPanic {
+							continue
+						}
+						held := map[string]int{}
+						for i := range p.Events {
+							e := &p.Events[i]
+							if e.Kind != px.EvCall || e.Call == nil || e.Call.Obj() == nil || e.Call.Recv == nil || e.Call.Obj().Pkg() == nil || e.Call.Obj().Pkg().Path() != "sync" {
+								continue
+							}
+							switch e.Call.Obj().Name() {
+							case "Lock", "RLock":
+								held[e.Call.Recv.Describe()]++
+							case "Unlock", "RUnlock":
+								held[e.Call.Recv.Describe()]--
+							}
+						}
+						for k, n := range held {
+							if n > 0 {
+								fmt.Println("LOCK-SCAN", funcDisplay(f), k)
+								return
+							}
+						}
+					}
+				}()
+			}
+		}
+	}
 }
 
 func c11locks(c *Ctx) {
@@ -445,6 +490,14 @@ func c11containers(c *Ctx) {
 			var add, rem *ssa.Function
 			for i := 0; i < named.NumMethods(); i++ {
 				m := named.Method(i)
+				if m.Name() == "Execute" {
+					// R9 (round 5): "a panicking callback loses only its own batch" — whatever the container holds while the
+					// callback runs is released when the callback panics
+					if ex := c.P.SSA.FuncValue(m); ex != nil && ex.Blocks != nil {
+						bad, np := c.locksReleasedOnAllExits("C11.R9", ex)
+						c.R.Check(len(bad) == 0, "C11.R9", strings.TrimPrefix(pk.PkgPath, mod)+"."+name+".Execute", "no mutex taken around the user callback stays held when the callback panics", c.P.Pos(ex.Pos()), strings.Join(bad, "; "), bad, np)
+					}
+				}
 				switch m.Name() {
 				case "AddTask":
 					add = c.P.SSA.FuncValue(m)
